@@ -255,7 +255,7 @@ def process_inputs(ctx, h, ins, want, subcmd):
         mism, u1, n = ctx.validate(evp)
         total_u1 += len(u1)
         # coverage: distinct non-trivial = distinct texts with at least one statement-like line
-        for e in core.read_ndjson(evp):
+        for e in core.iter_ndjson(evp):
             t = e.get("text")
             if t is None:
                 continue
